@@ -1049,14 +1049,20 @@ class Emitter:
             # opt-in (spec key 'devirt'): a virtual call (callee loaded from slot k of the object's vtable)
             # becomes an exact dispatch over the slot-k entries of the module's vtables
             cands = self.vcall_candidates(ins)
-            if cands:
+            if not cands:
+                cands = self.fptr_candidates(ins)
+            if cands is not None:
                 fp = self.val(callee)
+                if not cands:
+                    w('  if (1) { __CPROVER_assert(0, "rt: indirect call, no function of this type has its address taken"); }')
                 for i, cn in enumerate(cands):
                     cf = self.mod.funcs[cn]
                     cargs = ', '.join('(%s)%s' % (self.cty(p.ty), self.val(a)) for p, a in zip(cf.params, ins.args))
                     w('  %sif ((void*)%s == (void*)&%s) { %s%s(%s); }' % (
                         'else ' if i else '', fp, self.fname(cn), (r + ' = ') if r else '', self.fname(cn), cargs))
-                w('  else { __CPROVER_assert(0, "rt: virtual call target is not a slot entry of any vtable in the module"); }')
+                if cands:
+                    w('  else { __CPROVER_assert(0, "rt: indirect call target is not among the candidates (vtable slot entries / '
+                      'address-taken functions of the same type)"); }')
                 finish(self.any_abort)
                 return
         args = ', '.join(self.val(a) for a in ins.args)
@@ -1097,9 +1103,9 @@ class Emitter:
             return None
         base = ins.args[0].ty.to
 
-        def derives(t0):
+        def derives(t0, anc):
             for _ in range(8):
-                if t0 == base:
+                if t0 == anc:
                     return True
                 r0 = resolve(self.mod, t0)
                 if r0.kind != 'struct' or not r0.fields:
@@ -1121,11 +1127,57 @@ class Emitter:
                 cf = self.mod.funcs[e.name]
                 if cf.is_decl or len(cf.params) != len(ins.args) or cf.vararg:
                     continue
-                if cf.params[0].ty.kind != 'ptr' or not derives(cf.params[0].ty.to):
+                if cf.params[0].ty.kind != 'ptr' or not (derives(cf.params[0].ty.to, base) or derives(base, cf.params[0].ty.to)):
                     continue
                 if e.name not in out:
                     out.append(e.name)
         return out or None
+
+    def fptr_candidates(self, ins):
+        """plain indirect call: defined functions of exactly the call's LLVM function type whose address is taken
+        somewhere in the module (instruction operand other than a callee, or a global initialiser)"""
+        taken = getattr(self.mod, '_vf_addr_taken', None)
+        if taken is None:
+            taken = set()
+
+            def scan(v):
+                if isinstance(v, GlobalRef):
+                    n = v.name
+                    if n in self.mod.aliases and isinstance(self.mod.aliases[n], GlobalRef):
+                        n = self.mod.aliases[n].name
+                    if n in self.mod.funcs:
+                        taken.add(n)
+                elif isinstance(v, ConstExpr):
+                    for a in v.args:
+                        scan(a)
+                elif isinstance(v, ConstAgg):
+                    for a in v.elems:
+                        scan(a)
+            for g in self.mod.globals.values():
+                if g.init is not None:
+                    scan(g.init)
+            for fn in self.mod.funcs.values():
+                for b in fn.blocks:
+                    for i in b.instrs:
+                        for k, v in i.__dict__.items():
+                            if k in ('a', 'b', 'c', 'v', 'ptr', 'cmp', 'new', 'base', 'agg') and v is not None:
+                                scan(v)
+                            elif k == 'args':
+                                for x in v:
+                                    scan(x)
+                            elif k == 'inc':
+                                for x, _ in v:
+                                    scan(x)
+            self.mod._vf_addr_taken = taken
+        fty = ins.fty or FuncTy(ins.ty, [a.ty for a in ins.args], False)
+        if fty.kind == 'ptr':
+            fty = fty.to
+        out = []
+        for n in sorted(taken):
+            cf = self.mod.funcs[n]
+            if not cf.is_decl and cf.fty == fty:
+                out.append(n)
+        return out
 
     def alloc_elem_type(self, ins):
         """C type of the elements an allocation is used as (from the first bitcast of its result)"""
